@@ -107,7 +107,8 @@ AllowedTypes(r) ==
        (net \ r.neg) \cup doc
 
 TypeOK(r, q) == RType(q) \in AllowedTypes(r)
-PartyOK(r, q) == (r.party = "3p" => q.tp) /\ (r.party = "1p" => ~q.tp)
+\* party "none": both party bits cleared ('$third-party,first-party'), the rule applies to no request
+PartyOK(r, q) == (r.party = "3p" => q.tp) /\ (r.party = "1p" => ~q.tp) /\ r.party # "none"
 
 \* domain=: a listed domain covers its subdomains, '~' entries exclude, exclusions win.
 \* With no source hostname the statement does not say; the result is unspecified.
